@@ -5,7 +5,8 @@ MC_KvIndex / MC_Residency check the code-shaped model against the property level
 sequence up to a depth (binding G); drv_index executes them on the real IndexManager / ResidencyContainer;
 T_KvIndex / T_Residency judge every event with the same property-level operator (binding T).
 """
-import glob, json, os
+import glob, json, os, re
+from concurrent.futures import ThreadPoolExecutor
 from . import lib
 
 PROP = "C05"
@@ -13,6 +14,7 @@ UPD_CAP = 1260          # documented capacity of one bucket's update section (60
 MODEL_CAP = 3           # the same constant in the bounded model; `fill` operations bridge the two
 CODE_DEFECTS = ["F05a", "F05b"]   # defects the code-shaped model can reproduce (KvIndex.tla, parameter cd)
 DROP = ("res", "obs", "seq", "n", "cnt", "panic")
+OP_RE = re.compile(r'\},"(?:off":\d+,")?op":"(\w+)".*?"res":"(\w+)"')
 
 
 def merge_known(ctx):
@@ -63,19 +65,19 @@ def op_census(ctx, trace):
         for line in f:
             if lib.is_new(line):
                 continue
-            e = json.loads(line)
-            k = f'{e.get("op")}/{e.get("res")}'
+            m = OP_RE.search(line)     # "op" and "res" are top-level keys behind the (nested) "obs" object
+            k = f"{m.group(1)}/{m.group(2)}" if m else "?"
             cen[k] = cen.get(k, 0) + 1
 
 
 # --------------------------------------------------------------------------- model checking + generation
-def mc_index(ctx, alpha, depth, kd, code_devs, pre="none", emit=True, expect_violation=False):
-    cfg = ctx.path(f"mc_index_{alpha}_{pre}_{depth}.cfg")
+def mc_index(ctx, alpha, depth, kd, code_devs, pre="none", emit=True, expect_violation=False, tag="", workers=None):
+    cfg = ctx.path(f"mc_index_{alpha}_{pre}_{depth}{tag}.cfg")
     inv = ["Refines", "Coherent", "Bounded", "GhostExact", "AckedUpper", "NoDevNeeded"] + (["Emit"] if emit else [])
     lib.write_cfg(cfg, {"UpdCap": MODEL_CAP, "KnownDeviations": lib.tla_set(kd), "D": depth, "Alpha": f'"{alpha}"', "PreName": f'"{pre}"',
                         "CodeDevs": lib.tla_set(code_devs)}, "MCInit", "MCNext", invariants=inv)
-    progs = ctx.path(f"prog_index_{alpha}_{pre}_{depth}.ndjson")
-    r = lib.tlc(ctx, "MC_KvIndex", cfg, tagged_out={"PROGRAM": progs}, timeout=1500, expect_violation=expect_violation)
+    progs = ctx.path(f"prog_index_{alpha}_{pre}_{depth}{tag}.ndjson")
+    r = lib.tlc(ctx, "MC_KvIndex", cfg, tagged_out={"PROGRAM": progs}, timeout=1500, expect_violation=expect_violation, workers=workers)
     if not emit:
         os.remove(progs)
     return r, progs
@@ -120,17 +122,20 @@ def generated(ctx, sys_, label, r, progs, kd, keep=False):
 def design_checks(ctx, kd):
     """The ideal design refines the property with no deviation; each code defect found so far (known or fixed), put
     into the code-shaped model alone and without its deviation, is refuted by TLC (the finding's model-level witness)."""
-    r, _ = mc_index(ctx, "lean", 3, [], [], pre="boundary", emit=False)
-    r2, _ = mc_index(ctx, "zero", 4, [], [], emit=False)
-    ctx.cov["states"] += r["distinct"] + r2["distinct"]
-    ctx.cov["transitions"] += r["generated"] + r2["generated"]
+    jobs = [("ideal", "lean", 3, "boundary", [], False), ("ideal", "zero", 4, "none", [], False),
+            # done for fixed findings too: it shows the specification would refute the defect if it came back
+            ("F05a", "lean", 3, "none", ["F05a"], True), ("F05b", "zero", 4, "none", ["F05b"], True)]
+    with ThreadPoolExecutor(max_workers=len(jobs)) as ex:
+        rs = list(ex.map(lambda j: mc_index(ctx, j[1], j[2], [], j[4], pre=j[3], emit=False, expect_violation=j[5],
+                                            tag=j[0], workers=max(1, lib.NCPU // 4))[0], jobs))
     res = {"ideal_design_refines": True}
-    # done for fixed findings too: it shows the specification would refute the defect if it came back
-    for fid, alpha, depth in (("F05a", "lean", 3), ("F05b", "zero", 4)):
-        rv, _ = mc_index(ctx, alpha, depth, [], [fid], emit=False, expect_violation=True)
-        res[f"model_witness_{fid}"] = "Refines" in rv["invariant_violated"]
-        if not res[f"model_witness_{fid}"]:
-            raise lib.ToolError(f"the code-shaped model with defect {fid} is not refuted by TLC: the deviation has lost its witness")
+    for j, r in zip(jobs, rs):
+        ctx.cov["states"] += r["distinct"]
+        ctx.cov["transitions"] += r["generated"]
+        if j[5]:
+            res[f"model_witness_{j[0]}"] = "Refines" in r["invariant_violated"]
+            if not res[f"model_witness_{j[0]}"]:
+                raise lib.ToolError(f"the code-shaped model with defect {j[0]} is not refuted by TLC: the deviation has lost its witness")
     ctx.cov["design_checks"] = res
     ctx.stage("design", **res)
 
@@ -191,9 +196,8 @@ def selftest(ctx, sys_, trace, kd):
     for name, ls in (("0", lines), ("a", la), ("b", lb)):
         paths[name] = ctx.path(f"selftest_{sys_}_{name}.ndjson")
         open(paths[name], "w").write("\n".join(ls) + "\n")
-    base = lib.tlc_trace(ctx, mod, cfg, paths["0"])
-    va = lib.tlc_trace(ctx, mod, cfg, paths["a"])
-    vb = lib.tlc_trace(ctx, mod, cfg, paths["b"])
+    with ThreadPoolExecutor(max_workers=3) as ex:
+        base, va, vb = list(ex.map(lambda n: lib.tlc_trace(ctx, mod, cfg, paths[n]), ("0", "a", "b")))
     ok_a = (ia + 1) in va["violations"] and (ia + 1) not in base["violations"]
     ok_b = (ib + 1) in vb["violations"] and len(vb["violations"]) > len(base["violations"])
     res = {"corrupt_one_field_flagged": ok_a, "drop_one_event_flagged": ok_b}
